@@ -165,19 +165,56 @@ def run(ctx):
         sim = BuilderSim(ctx, features=feats, max_steps=10 + ch.draw(45, "max-steps"))
         ctx.profile = {"root": sim.root_kind, **feats}
 
+        live = None
+        live_failed = [0]
+        if ch.coin(1, 2, "long-lived-renderer"):
+            # a client keeps one renderer object for all its previews, also the ones that fail
+            from hugr.hugr.render import DotRenderer
+            live = DotRenderer()
+
+        def render_now(hugr):
+            if live is None:
+                return hugr.render_dot()
+            try:
+                return live.render(hugr)
+            except Exception:
+                live_failed[0] += 1
+                raise
+
+        def failing_preview():
+            """Another HUGR of the same client, still under construction in a way that makes rendering fail while the
+            links are drawn (an open nested graph whose result is already wired up): caught, and the renderer lives on."""
+            from hugr import tys
+            from hugr.build.dfg import Dfg
+            from hugr.std.logic import Not
+            d = Dfg(*[tys.Bool] * (1 + ch.draw(3, "preview-width")))
+            ws = list(d.inputs())
+            for _ in range(ch.draw(4, "preview-ops")):
+                ws.append(d.add_op(Not, ws[ch.draw(len(ws), "preview-arg")])[0])
+            inner = d.add_nested(*ws[:2])
+            d.hugr.add_link(inner.parent_node.out(0), d.output_node.inp(0))
+            try:
+                live.render(d.hugr)
+                ctx.probe("preview_of_unfinished_hugr_rendered")
+            except Exception:  # noqa: BLE001
+                live_failed[0] += 1
+                ctx.fault("rendering_of_incomplete_hugr_failed")
+
         def mid_render(sim):
             from ..engines.b_builders import Actor, ModuleCtl
+            if live is not None and ch.coin(1, 12, "failing-preview-of-another-hugr"):
+                failing_preview()
             if any((isinstance(a, Actor) and not a.closed) or (not isinstance(a, (Actor, ModuleCtl)) and not a.closed) for a in sim.actors):
                 if ch.coin(1, 10, "render-incomplete"):
                     try:
-                        sim.hugr.render_dot()
+                        render_now(sim.hugr)
                         ctx.probe("rendered_incomplete_hugr")
                     except Exception:  # noqa: BLE001
                         ctx.fault("rendering_of_incomplete_hugr_failed")
                 return
             if len(sim.hugr) > 3 and ch.coin(1, 6, "mid-history-render"):
                 try:
-                    sim.hugr.render_dot()
+                    render_now(sim.hugr)
                     ctx.probe("rendered_mid_history")
                     ctx.ev("query", "render_dot")
                 except Exception:  # noqa: BLE001  judged at the end
@@ -198,6 +235,16 @@ def run(ctx):
     g0 = check_render(ctx, h, doc, "default", None)
     if g0 is None or ctx.violations:
         return
+    if live is not None:
+        ctx.checked("renderer-reuse")
+        ctx.probe("long_lived_renderer_after_failed_preview" if live_failed[0] else "long_lived_renderer")
+        try:
+            s_live = live.render(h).source
+        except Exception as e:  # noqa: BLE001
+            s_live = f"raised {type(e).__name__}"
+        if s_live != h.render_dot().source:
+            ctx.violate("config", "renderer-object-carries-state-" + ("after-a-failed-render" if live_failed[0] else "between-renders"), {})
+            return
     pal = ch.pick(sorted(PALETTE), "palette")
     q = ch.coin(1, 2, "qualify")
     g1 = check_render(ctx, h, doc, f"{pal},qualify={q}", RenderConfig(PALETTE[pal], q))
